@@ -33,6 +33,8 @@ def run(chk):
     ersae.run(chk)
     from lib import bcstsize
     bcstsize.run(chk)
+    from lib import jecxzrule
+    jecxzrule.run(chk)
     return chk.finish(
         level="other",
         explanation=("(a) the generated signature/name/RW tables regenerate byte-identically from db/; (b) for every instruction id of both "
